@@ -20,6 +20,7 @@ import (
 	"bytes"
 	"crypto/sha256"
 	"encoding/hex"
+	"encoding/json"
 	"fmt"
 	"io"
 	"os"
@@ -37,9 +38,11 @@ import (
 	dbmetadata "github.com/containerd/stargz-snapshotter/cmd/containerd-stargz-grpc/db"
 	"github.com/containerd/stargz-snapshotter/metadata"
 	memorymetadata "github.com/containerd/stargz-snapshotter/metadata/memory"
+	digest "github.com/opencontainers/go-digest"
 	"github.com/sirupsen/logrus"
 	bolt "go.etcd.io/bbolt"
 
+	"verifharness/internal/blob"
 	"verifharness/internal/prng"
 	"verifharness/internal/vf"
 )
@@ -66,6 +69,7 @@ func body(r *vf.Run) {
 		hi, _ := strconv.Atoi(r.ChildArgs[1])
 		stageDiff(r, lo, hi)
 	case "share":
+		prebuiltDir = r.ChildArgs[0]
 		stageShare(r)
 	}
 }
@@ -87,13 +91,160 @@ func getCaseZ(r *vf.Run, i int, noZstd bool) *oneCase {
 	rng := r.RNG(uint64(i), 0)
 	switch {
 	case i < nb:
-		return builderCase(rng, r.Thorough(), noZstd)
+		var load func(bo blob.Opts) (*blob.Built, error)
+		if prebuiltDir != "" {
+			load = func(bo blob.Opts) (*blob.Built, error) { return loadPrebuilt(prebuiltDir, i, bo) }
+		}
+		return builderCase(rng, r.Thorough(), noZstd, load)
 	case i < nb+nh:
 		hl, mini := handList(r.Thorough())
 		return handCase(rng, hl[i-nb], mini[i-nb])
 	default:
 		return handCase(rng, randomCombo(rng), false)
 	}
+}
+
+// prebuiltDir: set in the race child; builder blobs come from files written by the top process.
+var prebuiltDir string
+
+type prebuiltMeta struct {
+	TOCDigest string `json:"toc_digest"`
+	External  bool   `json:"external"`
+	Err       string `json:"err,omitempty"`
+}
+
+func savePrebuilt(dir string, i int, cs *oneCase, b []byte, ext []byte, tocDigest string, err error) {
+	m := prebuiltMeta{TOCDigest: tocDigest, External: ext != nil}
+	if err != nil {
+		m.Err = err.Error()
+	} else {
+		_ = os.WriteFile(filepath.Join(dir, fmt.Sprintf("%d.blob", i)), b, 0o600)
+		if ext != nil {
+			_ = os.WriteFile(filepath.Join(dir, fmt.Sprintf("%d.etoc", i)), ext, 0o600)
+		}
+	}
+	js, _ := json.Marshal(m)
+	_ = os.WriteFile(filepath.Join(dir, fmt.Sprintf("%d.json", i)), js, 0o600)
+}
+
+func loadPrebuilt(dir string, i int, bo blob.Opts) (*blob.Built, error) {
+	js, err := os.ReadFile(filepath.Join(dir, fmt.Sprintf("%d.json", i)))
+	if err != nil {
+		return nil, errSkipped // not planned for this stage
+	}
+	var m prebuiltMeta
+	if err := json.Unmarshal(js, &m); err != nil {
+		return nil, err
+	}
+	if m.Err != "" {
+		return nil, fmt.Errorf("%s", m.Err)
+	}
+	b, err := os.ReadFile(filepath.Join(dir, fmt.Sprintf("%d.blob", i)))
+	if err != nil {
+		return nil, err
+	}
+	res := &blob.Built{Opts: bo, Blob: b, TOCDigest: digest.Digest(m.TOCDigest)}
+	if m.External {
+		if res.ExternalTOC, err = os.ReadFile(filepath.Join(dir, fmt.Sprintf("%d.etoc", i))); err != nil {
+			return nil, err
+		}
+	}
+	return res, nil
+}
+
+// sharePlan is what the race stage will run; a pure function of (seed, tier).
+type sharePlan struct {
+	RaceDiff  []int         `json:"race_diff"`
+	Scenarios [][]planLayer `json:"scenarios"`
+}
+
+type planLayer struct {
+	Cands []int  `json:"cands"` // candidate case indices, first buildable non-zstd one is used
+	Idx   int    `json:"idx"`   // chosen (filled by the top process)
+	Role  string `json:"role"`
+}
+
+func mkSharePlan(r *vf.Run) *sharePlan {
+	nb, nh, nc := caseCounts(r)
+	total := nb + nh + nc
+	p := &sharePlan{}
+	pr := r.RNG(999)
+	for k := 0; k < r.N(12, 60); k++ {
+		p.RaceDiff = append(p.RaceDiff, pr.Intn(total))
+	}
+	for s := 0; s < r.N(10, 60); s++ {
+		rng := r.RNG(5000, uint64(s))
+		k := rng.Range(2, 12)
+		if !r.Thorough() && k > 8 {
+			k = rng.Range(2, 8)
+		}
+		var ls []planLayer
+		for j := 0; j < k; j++ {
+			l := planLayer{Idx: -1}
+			for t := 0; t < 5; t++ {
+				l.Cands = append(l.Cands, rng.Intn(total))
+			}
+			l.Role = rng.PickS("survivor", "survivor", "close-at-once", "close-after-walk", "close-when-others-walk")
+			ls = append(ls, l)
+		}
+		ls[0].Role = "survivor"
+		if ls[1].Role == "survivor" {
+			ls[1].Role = rng.PickS("close-at-once", "close-after-walk", "close-when-others-walk")
+		}
+		p.Scenarios = append(p.Scenarios, ls)
+	}
+	return p
+}
+
+// prebuild builds (plain process) every builder blob the race stage needs.
+func prebuild(r *vf.Run, dir string) string {
+	_ = os.MkdirAll(dir, 0o700)
+	nb, _, _ := caseCounts(r)
+	p := mkSharePlan(r)
+	done := map[int]bool{} // index -> usable
+	try := func(i int) bool {
+		if ok, seen := done[i]; seen {
+			return ok
+		}
+		if i >= nb {
+			done[i] = true // hand cases are assembled in the child
+			return true
+		}
+		cs := getCaseZ(r, i, true)
+		ok := cs.BuildErr == nil
+		done[i] = ok
+		if cs.BuildErr == errSkipped {
+			return false
+		}
+		if ok {
+			var ext []byte
+			if cs.built != nil {
+				ext = cs.built.ExternalTOC
+			}
+			savePrebuilt(dir, i, cs, cs.Blob, ext, cs.Facts.tocTruth, nil)
+		} else {
+			savePrebuilt(dir, i, cs, nil, nil, "", cs.BuildErr)
+		}
+		return ok
+	}
+	for _, i := range p.RaceDiff {
+		try(i)
+	}
+	for s := range p.Scenarios {
+		for j := range p.Scenarios[s] {
+			l := &p.Scenarios[s][j]
+			for _, c := range l.Cands {
+				if try(c) {
+					l.Idx = c
+					break
+				}
+			}
+		}
+	}
+	js, _ := json.Marshal(p)
+	pf := filepath.Join(dir, "plan.json")
+	_ = os.WriteFile(pf, js, 0o600)
+	return pf
 }
 
 func top(r *vf.Run) {
@@ -143,7 +294,10 @@ func top(r *vf.Run) {
 		defer wg.Done()
 		t0 := time.Now()
 		defer func() { r.Logf("stage share took %v", time.Since(t0)) }()
-		ex := r.RunChild(vf.ChildSpec{Stage: "share", Race: true, Timeout: time.Duration(r.N(10, 30)) * time.Minute, Attribution: attribution})
+		pdir := filepath.Join(r.Scratch, "prebuilt")
+		prebuild(r, pdir)
+		r.Logf("prebuilt the race stage's builder blobs in %v", time.Since(t0))
+		ex := r.RunChild(vf.ChildSpec{Stage: "share", Race: true, Args: []string{pdir}, Timeout: time.Duration(r.N(10, 30)) * time.Minute, Attribution: attribution})
 		judgeChild(r, "share", ex)
 	}()
 	wg.Wait()
@@ -197,7 +351,9 @@ func openBolt(path string) (*bolt.DB, error) {
 	return bolt.Open(path, 0o600, &bolt.Options{NoFreelistSync: true, InitialMmapSize: mm, FreelistType: bolt.FreelistMapType})
 }
 
-func section(b []byte) *io.SectionReader { return io.NewSectionReader(bytes.NewReader(b), 0, int64(len(b))) }
+func section(b []byte) *io.SectionReader {
+	return io.NewSectionReader(bytes.NewReader(b), 0, int64(len(b)))
+}
 
 type opened struct {
 	r        metadata.Reader
@@ -309,6 +465,9 @@ func diffCase(r *vf.Run, i int, tag string) {
 		return
 	}
 	r.Eval(1)
+	if cs.Class == "builder" && !cs.tocParsed {
+		r.Count("builder_toc_not_extracted(classifier falls back to tar order)", 1)
+	}
 	for _, f := range cs.Features {
 		r.Count("cases_with:"+f, 1)
 	}
@@ -438,8 +597,6 @@ func diffCase(r *vf.Run, i int, tag string) {
 	// --- Clone + Close: closing a clone must not change what the origin answers
 	//     (memory: Close is a no-op). Done last because it may destroy the db reader.
 	cloneClose(r, cs, idx, mem.r, dbo.r, rep)
-	mem.r.Close()
-	dbo.r.Close()
 
 	// non-triviality
 	paths, filesRead := 0, 0
@@ -468,38 +625,71 @@ func diffCase(r *vf.Run, i int, tag string) {
 	}
 }
 
+// cloneClose: two call sequences around Clone + Close, the same on both stores.
+//
+//	A: c := r.Clone(sr); c.Close(); r.GetAttr(root); r.ForeachChild(root)
+//	B: c := r.Clone(sr); r.Close(); c.GetAttr(root); c.ForeachChild(root); c.Close()
+//
+// The memory store's Close is a no-op, so there both sequences leave the other reader
+// usable; the comparison demands the same of the db store. B is only judged when A left
+// both origins intact. Closes both readers.
 func cloneClose(r *vf.Run, cs *oneCase, idx string, mem, db metadata.Reader, rep func(map[string]any) map[string]any) {
-	res := map[string]string{}
-	for _, s := range []struct {
+	usable := func(x metadata.Reader) string {
+		if _, err := x.GetAttr(x.RootID()); err != nil {
+			return "getattr-fails"
+		}
+		if err := x.ForeachChild(x.RootID(), func(string, uint32, os.FileMode) bool { return true }); err != nil {
+			return "foreachchild-fails"
+		}
+		return "intact"
+	}
+	resA, resB := map[string]string{}, map[string]string{}
+	stores := []struct {
 		n string
 		r metadata.Reader
-	}{{"memory", mem}, {"db", db}} {
+	}{{"memory", mem}, {"db", db}}
+	for _, s := range stores {
 		c, err := s.r.Clone(section(cs.Blob))
 		if err != nil {
-			res[s.n] = "clone-error"
+			resA[s.n] = "clone-error"
 			continue
 		}
 		if err := c.Close(); err != nil {
-			res[s.n] = "close-error"
+			resA[s.n] = "close-error"
 			continue
 		}
-		if _, err := s.r.GetAttr(s.r.RootID()); err != nil {
-			res[s.n] = "origin-getattr-fails"
-			continue
-		}
-		n := 0
-		err = s.r.ForeachChild(s.r.RootID(), func(string, uint32, os.FileMode) bool { n++; return true })
-		if err != nil {
-			res[s.n] = "origin-foreachchild-fails"
-			continue
-		}
-		res[s.n] = "origin-intact"
+		resA[s.n] = "origin-" + usable(s.r)
 	}
-	r.Count("clone_close:"+res["memory"]+"/"+res["db"], 1)
-	if res["memory"] != res["db"] {
-		r.Violate("clone:close-destroys-origin@"+pick(res["db"] != "origin-intact", "db", "memory"),
-			"call sequence c := r.Clone(sr); c.Close(); r.GetAttr/ForeachChild(root): memory -> "+res["memory"]+", db -> "+res["db"], rep(map[string]any{"memory": res["memory"], "db": res["db"]}))
+	r.Count("clone_close_A:"+resA["memory"]+"/"+resA["db"], 1)
+	if resA["memory"] != resA["db"] {
+		r.Violate("clone:close-destroys-origin@"+pick(resA["db"] != "origin-intact", "db", "memory"),
+			"call sequence c := r.Clone(sr); c.Close(); r.GetAttr/ForeachChild(root): memory -> "+resA["memory"]+", db -> "+resA["db"], rep(map[string]any{"memory": resA["memory"], "db": resA["db"]}))
 		r.Distinct("divergence_keys", "clone:close-destroys-origin")
+	}
+	if resA["memory"] != "origin-intact" || resA["db"] != "origin-intact" {
+		mem.Close()
+		db.Close()
+		return
+	}
+	for _, s := range stores {
+		c, err := s.r.Clone(section(cs.Blob))
+		if err != nil {
+			resB[s.n] = "clone-error"
+			s.r.Close()
+			continue
+		}
+		if err := s.r.Close(); err != nil {
+			resB[s.n] = "close-error"
+			continue
+		}
+		resB[s.n] = "clone-" + usable(c)
+		c.Close()
+	}
+	r.Count("clone_close_B:"+resB["memory"]+"/"+resB["db"], 1)
+	if resB["memory"] != resB["db"] {
+		r.Violate("clone:origin-close-destroys-clone@"+pick(resB["db"] != "clone-intact", "db", "memory"),
+			"call sequence c := r.Clone(sr); r.Close(); c.GetAttr/ForeachChild(root): memory -> "+resB["memory"]+", db -> "+resB["db"], rep(map[string]any{"memory": resB["memory"], "db": resB["db"]}))
+		r.Distinct("divergence_keys", "clone:origin-close-destroys-clone")
 	}
 }
 
@@ -507,65 +697,56 @@ func cloneClose(r *vf.Run, cs *oneCase, idx string, mem, db metadata.Reader, rep
 // stage share (race build)
 
 func stageShare(r *vf.Run) {
+	var plan sharePlan
+	js, err := os.ReadFile(filepath.Join(prebuiltDir, "plan.json"))
+	if err != nil || json.Unmarshal(js, &plan) != nil {
+		r.Inconclusive("race stage: plan of prebuilt blobs unreadable")
+		return
+	}
 	// a few differential cases under the race detector (db background load vs readers)
-	nb, nh, nc := caseCounts(r)
-	total := nb + nh + nc
-	pr := r.RNG(999)
 	t0 := time.Now()
-	for k := 0; k < r.N(8, 40); k++ {
-		diffCase(r, pr.Intn(total), "race-")
+	for _, i := range plan.RaceDiff {
+		diffCase(r, i, "race-")
 	}
 	r.Logf("race diff cases: %v", time.Since(t0))
 	r.FlushPartial()
-	for s := 0; s < r.N(6, 36); s++ {
-		shareScenario(r, s)
+	for s := range plan.Scenarios {
+		shareScenario(r, s, plan.Scenarios[s])
 		r.FlushPartial()
 	}
 }
 
 type layerRun struct {
-	cs        *oneCase
-	role      string // "survivor" | "close-at-once" | "close-after-walk" | "close-when-others-walk"
-	alone     *Dump
-	first     *Dump
-	firstB    *Dump // concurrent second walker on the same reader (survivors)
-	second    *Dump
-	openErr   error
-	closeErr  error
-	walking   atomic.Bool
+	cs                         *oneCase
+	role                       string // "survivor" | "close-at-once" | "close-after-walk" | "close-when-others-walk"
+	alone                      *Dump
+	first                      *Dump
+	firstB                     *Dump // concurrent second walker on the same reader (survivors)
+	second                     *Dump
+	openErr                    error
+	closeErr                   error
+	walking                    atomic.Bool
 	closedWhileSurvivorWalking bool
 }
 
-func shareScenario(r *vf.Run, s int) {
-	rng := r.RNG(5000, uint64(s))
-	k := rng.Range(2, 12)
-	if !r.Thorough() && k > 8 {
-		k = rng.Range(2, 8)
-	}
-	nb, nh, nc := caseCounts(r)
-	total := nb + nh + nc
+func shareScenario(r *vf.Run, s int, pl []planLayer) {
 	var ls []*layerRun
-	for j := 0; j < k; j++ {
-		var cs *oneCase
-		for t := 0; t < 5; t++ {
-			cs = getCase(r, rng.Intn(total))
-			if cs.BuildErr == nil && !(cs.Light && t < 4) {
-				break
-			}
+	for _, p := range pl {
+		if p.Idx < 0 {
+			continue
 		}
+		cs := getCase(r, p.Idx)
 		if cs.BuildErr != nil {
 			continue
 		}
-		l := &layerRun{cs: cs}
-		l.role = rng.PickS("survivor", "survivor", "close-at-once", "close-after-walk", "close-when-others-walk")
-		ls = append(ls, l)
+		ls = append(ls, &layerRun{cs: cs, role: p.Role})
 	}
 	if len(ls) < 2 {
 		return
 	}
 	ls[0].role = "survivor"
 	if ls[1].role == "survivor" {
-		ls[1].role = rng.PickS("close-at-once", "close-after-walk", "close-when-others-walk")
+		ls[1].role = "close-when-others-walk"
 	}
 	r.Eval(1)
 	probe := prng.Hash64(r.Seed, uint64(s), 99)
